@@ -225,7 +225,7 @@ fn main() {
     }
 
     // ---- phase 1: frozen-clock sweep over the clock-date dimension ----
-    let stride: u64 = stride_override.unwrap_or(if thorough { 1 } else { 97 });
+    let stride: u64 = stride_override.unwrap_or(if thorough { 1 } else { 13 });
     let battery = sweep::battery();
     let prepared: Vec<exec::Prepared> = battery.iter().map(exec::prepare).collect();
     let total_days = (DATE_MAX_DAYS - DATE_MIN_DAYS + 1) as u64;
@@ -255,7 +255,7 @@ fn main() {
     );
 
     // ---- phase 2: seeded runs with clock fault schedules ----
-    let n_runs: u64 = runs_override.unwrap_or(if thorough { 2_000_000 } else { 150_000 });
+    let n_runs: u64 = runs_override.unwrap_or(if thorough { 20_000_000 } else { 1_000_000 });
     let mut total: Stats = if sweep_stats.violations.is_empty() {
         pool::run_parallel(n_runs, workers, |idx, acc: &mut Stats, cut: &Cutoff| {
             if let (script, Some(v)) = simulate_run(seed, idx, acc, crosscheck) {
